@@ -14,11 +14,12 @@ import (
 	"os/exec"
 	"runtime"
 	"strconv"
+	"strings"
 	"sync"
 	"time"
 
 	"verif/engine"
-	_ "verif/props"
+	"verif/props"
 )
 
 func main() {
@@ -40,6 +41,12 @@ func main() {
 			usage()
 		}
 		worker(os.Args[2], os.Args[3], os.Args[4])
+	case "racepass":
+		reps := 5
+		if len(os.Args) > 2 {
+			reps, _ = strconv.Atoi(os.Args[2])
+		}
+		props.C20RacePass(reps)
 	case "replay":
 		if len(os.Args) < 3 {
 			usage()
@@ -85,6 +92,16 @@ func run(id, tier string) int {
 	}
 	seed, _ := strconv.Atoi(os.Getenv("VERIF_SEED"))
 	units := p.Units(tier)
+	if f := os.Getenv("VERIF_UNITS"); f != "" {
+		// debugging aid: only run the units whose name contains f (never set by the registered commands)
+		var idx []int
+		for i, u := range units {
+			if strings.Contains(u.Name, f) {
+				idx = append(idx, i)
+			}
+		}
+		return runSubset(p, tier, units, idx)
+	}
 	t0 := time.Now()
 	results := make([]engine.UnitResult, len(units))
 	failed := make([]string, len(units))
@@ -127,6 +144,29 @@ func run(id, tier string) int {
 		return 2
 	}
 	return engine.Finish(p, tier, seed, results, root(), time.Since(t0).Seconds())
+}
+
+func runSubset(p *engine.Property, tier string, units []engine.Unit, idx []int) int {
+	self, _ := os.Executable()
+	bad := 0
+	for _, i := range idx {
+		cmd := exec.Command(self, "worker", p.ID, tier, strconv.Itoa(i))
+		var out bytes.Buffer
+		cmd.Stdout, cmd.Stderr = &out, os.Stderr
+		if err := cmd.Run(); err != nil {
+			fmt.Println("unit", units[i].Name, "failed:", err)
+			bad = 2
+			continue
+		}
+		var r engine.UnitResult
+		json.Unmarshal(out.Bytes(), &r)
+		fmt.Printf("unit %s: states=%d transitions=%d evaluations=%d exhaustive=%v violations=%d wall=%.1fs\n", units[i].Name, r.States, r.Transitions, r.Evaluations, r.Exhaustive, len(r.Violations), r.WallS)
+		for _, v := range r.Violations {
+			fmt.Printf("  %s | %s | %v\n", v.Sig(), v.Detail, v.Path)
+			bad = 1
+		}
+	}
+	return bad
 }
 
 func tail(s string, n int) string {
